@@ -1,14 +1,20 @@
 SPEC_PART = dict(
     props_file="C14_theta",
-    legs=[dict(family="theta", focus="malformed", oracles=["no_panic"], profiles=["debug", "release"],
-               mask=[7, 12, 13], n_quick=150, n_thorough=2000, panic_is_violation=True)],
+    legs=[dict(family="theta", focus="malformed", oracles=["no_panic", "roundtrip_ok"], profiles=["debug", "release"],
+               mask=[7, 12, 13, 15], n_quick=150, n_thorough=2000, panic_is_violation=True)],
     trusted=["the set of modelled panic sites is what I read in theta/sketch.rs and theta/bit_pack.rs (asserts, unreachable!, "
              "indexing, shifts, subtraction/addition overflow)"],
     assumptions=["inputs are byte strings (every element below 256)"],
-    covers="theta: c_deserialize never reaches a modelled panic site for any byte string; Ok => entries in (0, theta), theta in "
-           "[1, 2^63-1], ascending when ordered, and at most 8*|input| entries; every such value re-serializes both ways without a "
-           "panic. Six defects found and repaired in /repo (D14 entry_bits/count bytes, allocation before length check incl. an "
-           "abort, delta-sum overflow, D12 ordered flag, theta = 0 bounds panic) - known_findings.d/theta-*.json. Tie: mutated "
+    covers="theta: c_deserialize never reaches a modelled panic site for any byte string (running out of loop fuel counts as "
+           "one); Ok => well-formed for both writers (entries in (0, theta), theta in [1, 2^63-1], ascending when ordered, flagged "
+           "empty only without entries and with theta = 2^63-1, seed hash the reader's unless empty, < 2^32 entries), hence "
+           "deserialize(serialize[_compressed](value)) = value; at most 8*|input| entries for Ok results, and the two length "
+           "guards in front of the reader's only allocations bound the request by the remaining bytes whatever the outcome (the "
+           "model has no allocator: that part is the guards as modelled + the harness's counting allocator). Seven defects found "
+           "and repaired in /repo (D14 entry_bits/count bytes, allocation before length check incl. an "
+           "abort, delta-sum overflow, D12 ordered flag, theta = 0 bounds panic, serVer 4 EMPTY flag with entries) - known_findings.d/theta-*.json. Tie: mutated "
            "images of all variants (field-aware: counts, theta, flags, entry_bits, count bytes, truncation, extension, adjacent "
-           "swaps under ORDERED at odd and even indices) and random bytes: no panic, no allocation above 64*len+1MiB, outcome "
-           "and value equal to the model's, every Ok value queried (estimate, bounds) and re-serialized both ways")
+           "swaps under ORDERED at odd and even indices, EMPTY set over entries with good and bad seed hash, ORDERED cleared in "
+           "serVer 4, undefined flag bits) and random bytes: no panic, no allocation above 64*len+1MiB, outcome "
+           "and value equal to the model's, every Ok value queried (estimate, bounds), re-serialized both ways and forked "
+           "through a writer and the reader (op 15: equal dump, equal bytes)")
